@@ -16,4 +16,4 @@ def run(ctx, rep):
         cov = skel.s3_snapshot(i, r)
         skel.s12_writeset(i, r, cov or set())
     common.s_rules(ctx, rep, [s3_s12, lambda i, r, o: skel.s13_delete(i, r)])
-    common.g_rules(ctx, rep, ["F1", "F2", "F3", "F4", "F5", "F6"], floors={"F1": 300, "F2": 50})
+    common.g_rules(ctx, rep, ["F1", "F2", "F3", "F4", "F5", "F6", "F8"], floors={"F1": 300, "F2": 50})
